@@ -11,6 +11,7 @@ PROFILES = {
     "alias": {
         "weights": {
             "vec": 8, "tab_dict": 6, "tab_vecs": 6, "input_tuple": 2, "input_list": 1, "vec_of_input": 2, "vec_of_cols": 2,
+            "input_vlist": 1.5, "tab_of_input": 3, "irshift": 1, "rowseal": 2, "rowopen": 2,
             "copy": 4, "deepcopy": 1, "getitem": 6, "row": 3, "tsel": 3, "t2d": 3, "rshift": 5, "lshift": 3, "T": 1,
             "binop": 3, "unop": 1, "cast": 1, "fillna": 1, "v0": 1, "sort": 3, "join": 3, "agg": 2, "method": 1,
             "view": 10, "set": 14, "tset": 8, "setattr": 6, "setname": 3, "alias": 1, "rencol": 2, "rencols": 1,
@@ -28,7 +29,7 @@ PROFILES = {
     "shape": {
         "weights": {
             "vec": 8, "tab_dict": 8, "tab_vecs": 8, "tab_empty": 1, "copy": 2, "getitem": 6, "row": 2, "tsel": 3, "t2d": 4,
-            "rshift": 8, "lshift": 8, "T": 9, "sort": 2, "join": 3, "agg": 1, "binop": 2,
+            "rshift": 8, "lshift": 8, "T": 9, "sort": 2, "join": 3, "agg": 1, "binop": 2, "irshift": 3,
             "view": 4, "set": 4, "tset": 8, "setattr": 8, "setname": 1, "rencol": 1, "rencols": 1,
             "read": 3, "drop": 3,
         },
@@ -59,7 +60,7 @@ PROFILES = {
         "weights": {
             "vec": 12, "input_tuple": 5, "vec_of_input": 8, "vec_of_cols": 3, "drop_input": 2, "copy": 3, "getitem": 4, "binop": 2,
             "tab_dict": 3, "tab_vecs": 4, "rshift": 4, "lshift": 2, "t2d": 1, "view": 5, "setattr": 4, "deepcopy": 1,
-            "writeback": 16, "set": 6, "tset": 2, "drop": 10, "park": 4, "collect": 3, "read": 1, "hammer": 0.5,
+            "writeback": 16, "set": 6, "tset": 5, "drop": 10, "park": 4, "collect": 3, "read": 1, "hammer": 0.5,
             "fillna": 2, "cast": 1, "v0": 2, "sort": 1, "tsel": 1,
         },
         "core": ["vec", "writeback", "drop"],
@@ -78,7 +79,7 @@ PROFILES = {
         },
         "core": ["vec", "tab_dict", "fp", "set", "tset", "view"],
         "knobs": {"p_fault": [0.0, 0.05], "p_natural": [0.0, 0.05], "p_wider": [0.1, 0.25], "max_objs": [4, 6, 9],
-                  "rare": [0.0, 0.02, 0.15], "len": [(0, 6), (0, 6), (5, 12)], "max_cols": [4, 4, 12]},
+                  "rare": [0.0, 0.02, 0.15], "len": [(0, 6), (0, 6), (5, 12)], "max_cols": [4, 4, 12], "p_reenter": [0.0, 0.05, 0.15]},
         "steps": (15, 50),
         "vid": [[1, 0, 0], [1, 2, 0], [1, 1, 2], [0, 1, 3]],
     },
@@ -94,7 +95,8 @@ PROFILES = {
                   "max_objs": [6, 9], "names": [["a", "b", "c", "d", "x", "y"], ["a", "b", "A b", "x-y", "sum", "a"],
                             ["a", "b", "a_sum", "a_sum2", "a_count", "b_mean", "key", "key2", "col_sum"],
                             ["a", "A", "a b", "A b", "a_b", "x-y", "x y", "Total", "total"],
-                            ["a", "fİyat", "ısı", "maſs", "Straße", "b", "é", "x"]]},
+                            ["a", "fİyat", "ısı", "maſs", "Straße", "b", "é", "x"],
+                            ["a", 2020, 2020.0, 1, True, "b", "x"]]},
         "steps": (15, 50),
     },
     # C09 / C12 history part: joins and aggregates inside histories that write to key columns,
@@ -135,13 +137,28 @@ def swarm(rng, profile_name):
         knobs[k] = rng.choice(choices)
     lo, hi = p["steps"]
     steps = rng.randint(lo, hi)
-    if rng.random() < (0.04 if profile_name == "relhist" else 0.015) and profile_name in (
+    if rng.random() < (0.04 if profile_name == "relhist" else 0.03) and profile_name in (
             "alias", "shape", "dtype", "fingerprint", "derive", "lifetime", "relhist"):
         # a few runs cross the library's size-dependent branches (len > 1000): few objects, few steps
-        knobs["len"] = (1001, 1003)
+        u = rng.random()
+        knobs["len"] = (1001, 1003) if u < 0.45 else (10001, 10002) if u < 0.7 else (65537, 65539) if u < 0.85 else (70001, 70002)
         knobs["p_empty"] = 0.0
+        if "p_wider" in p["knobs"]:
+            knobs["p_wider"] = max(knobs.get("p_wider", 0.0), 0.4)      # size-dependent paths x promotion
+        if rng.random() < 0.6:
+            # with any None rate at all a long vector is always nullable: the non-nullable side of a
+            # size-dependent path would never be seen
+            knobs["p_none"] = 0.0
+        if rng.random() < 0.5:
+            knobs["kinds"] = ["int", "date", "bool", "float", "int"]      # the promotable kinds
         knobs["max_objs"] = 3
         steps = min(steps, 14)
+        if u >= 0.7:       # beyond 2**16 elements: a handful of steps on one or two objects
+            knobs["max_objs"] = 2
+            steps = min(steps, 6)
+            for k in ("hammer", "cast", "agg"):
+                if k in w:
+                    w[k] = 0
         for k in ("T", "join"):        # a transposed 1000-row table has 1000 columns: not what these runs are for
             if k in w:
                 w[k] = 0
